@@ -1,6 +1,7 @@
 import AgModel.Props.C01
 import AgModel.Props.C02
 import AgModel.Props.C03
+import AgModel.Props.C03Pool
 import AgModel.Props.C04
 import AgModel.Props.C05
 import AgModel.Props.C06
@@ -13,6 +14,7 @@ import AgModel.Props.C11
 import AgModel.Props.C12
 import AgModel.Props.C13
 import AgModel.Props.C14
+import AgModel.Props.C14Live
 import AgModel.Props.C15
 import AgModel.Props.C16
 import AgModel.Props.C17
